@@ -694,3 +694,71 @@ def rule_B_LEN(ctx, floor_sites=20, floor_posts=14):
     ctx.floor("returned borders examined by B-LEN", n_posts, floor_posts)
     ctx.sample({"rule": "B-LEN", "contracts": sorted(C), "slice_sites": n_sites, "posts": n_posts, "pre_checks": n_pre, "proofs": proved[:12]})
     ctx.extra["b_len_proofs"] = proved
+
+
+# ----------------------------------------------------------------------------
+# L-ONCE: no routine of the recursive descent is run twice over the same region on one path
+def rule_L_ONCE(ctx):
+    ctx.rule("L-ONCE", "bounded-time clause (necessary condition): inside the recursion cycle of the lexical parser no function (its closures included) "
+             "calls the same member of the cycle twice on the same slice along one path -- a second attempt over the same region doubles the "
+             "work per nesting level (2^depth).  Sites with different callees, different sub-slices (a cursor redefined in between) or on "
+             "mutually exclusive paths are fine")
+    f = ctx.facts
+    cg = mir.callgraph(f)
+    nodes = {p for p in f.mir if MOD in p}
+    comps = cg.sccs(nodes)
+    cyc = set()
+    for c in comps:
+        cyc |= set(c)
+    ctx.floor("functions in the lexical recursion cycle", len(cyc), 3)
+    C = contracts_of(f)
+    names = {f.mir[p]["name"] for p in cyc if "{closure" not in p}
+    n_sites = 0
+    for p in sorted(cyc):
+        if "{closure" in p:
+            continue
+        b = f.mir[p]
+        fn = Fn(f, b, C)
+        ctx.fn(b)
+        sites = []      # (callee, kind, slice, block, where)
+        for bi, t in fn.g.calls():
+            nm = mir.callee_name(t)
+            if nm in names and (mir.callee_path(t) or "") in cyc or (nm in names and any(f.mir[q]["name"] == nm for q in cyc)):
+                env_i = C.get(nm)
+                if env_i is None:
+                    continue
+                s = fn.slice_of(t["args"][env_i - 1])
+                sites.append((nm, s, bi, "body", t))
+        # closures defined inside this function: their calls on a captured &[char] count as calls on the whole env
+        for q, cb in f.mir.items():
+            if q.startswith(p + "::{closure"):
+                g2 = mir.cfg(cb)
+                for bi, t in g2.calls():
+                    nm = mir.callee_name(t)
+                    if nm in names and C.get(nm):
+                        a = t["args"][C[nm] - 1]
+                        r, pr = g2.resolve_operand(a)
+                        captured = r[0] == "arg" and r[1] == 1
+                        sites.append((nm, ("E", None, None) if captured else None, None, "closure", t))
+        n_sites += len(sites)
+        bad = []
+        for i, (n1, s1, b1, w1, t1) in enumerate(sites):
+            for (n2, s2, b2, w2, t2) in sites[i + 1:]:
+                if n1 != n2 or s1 is None or s2 is None:
+                    continue
+                same = False
+                if s1 == ("E", None, None) and s2 == ("E", None, None):
+                    same = True
+                elif s1[0] == "E" and s2[0] == "E" and s1[2] is None and s2[2] is None and s1[1] is not None and s2[1] is not None and b1 is not None and b2 is not None:
+                    same = fn.same_value(s1[1], b1, s2[1], b2)
+                if not same:
+                    continue
+                if w1 == "closure" or w2 == "closure":
+                    ordered = True
+                else:
+                    ordered = b2 in fn.g.reachable_from(b1) or b1 in fn.g.reachable_from(b2)
+                if ordered:
+                    bad.append("%s called at line %s and again at line %s on the same slice" % (n1, t1["line"], t2["line"]))
+        ctx.ob("L-ONCE", "%s: each member of the recursion cycle is tried at most once per region on a path" % b["name"], not bad, "; ".join(bad),
+               "%s:%s" % (b["span"]["file"], b["span"]["line"]))
+    ctx.floor("recursive call sites examined by L-ONCE", n_sites, 6)
